@@ -65,6 +65,17 @@ def ep(ctx, lm):
     return ctx.memo(("EP", lm), lambda: EP(ctx, lm))
 
 
+_GARB = {}
+
+
+def _has_garbage(v):
+    r = _GARB.get(v.id)
+    if r is None:
+        r = any(x is tm.GARBAGE for x in tm.subterms(v))
+        _GARB[v.id] = r
+    return r
+
+
 def leaves(x, path=()):
     """(path tuple, leaf term, presence gates) for every non-record leaf of a nested record /
     finite-map term.  Map entries add their key name to the path and their presence to gates."""
@@ -79,8 +90,9 @@ def leaves(x, path=()):
             n = (len(t.a) - 1) // 2
             for i in range(n):
                 pres, v = t.a[1 + 2 * i], t.a[2 + 2 * i]
-                if pres is tm.FALSE:
-                    continue
+                if pres is tm.FALSE or v is tm.GARBAGE or (isinstance(v, tm.T) and v.op != "emap"
+                                                           and _has_garbage(v)):
+                    continue          # never present (a value no path can produce, or derived from one, is garbage)
                 walk(v, p + ("[%s]" % tm.variant_name(t.a[0], i),), gates + (pres,))
         elif t.op == "tuple" and len(t.a) > 0:
             for i, f in enumerate(t.a):
